@@ -301,6 +301,11 @@ func exec(t []string) (res string) {
 		txt := doUTX(id, rxtNs, txt1)
 		last = lastRes{rxt: rxtNs, txt: txt.UnixNano(), ev: "-"}
 		return fmt.Sprintf("ok txt=%d | %s", txt.UnixNano(), snap(id))
+	case t[0] == "srv.par" && len(t) >= 3:
+		now := pInt(t[1])
+		subs := parseSubs(t[2:])
+		clk.ns.Store(now)
+		return "ok " + runPar(subs)
 	case (t[0] == "srv.bulk" || t[0] == "srv.bulkcheck") && len(t) == 6:
 		n, idbase := pNat(t[1]), pNat(t[2])
 		base, step, d := pInt(t[3]), pInt(t[4]), pInt(t[5])
